@@ -322,6 +322,12 @@ pub fn run(opts: &Opts) -> i32 {
         "exists ((x)) . B\n", "(field = field, ((x)))\n", "@[debug(\"m\", 3)] (_)\n", "@[monadic] ((_))\n", "let foo : Int\n  -> Int = bar in\nfoo\n",
         "exists (a = b = x as T : C) . x\n", "exists (a = b = c = x as T) . x\n", "exists ((x = y) as T : C) . x\n", "exists (= K as T : C) (n = (m = y)) . K\n", "exists (a = (b = x) as T : C) . x\n",
         "exists (snd\n= A as M)\n (y) (M as codata | .run : B | .d1 : A end) . A\n",
+        // one-line arms, telescopes and typed definitions wider than the line (comment-free)
+        "let counter = comatch | .step (current_accumulator_value : Int64) (increment_applied_each_round : Int64) (upper_bound : Int64) => ret current_accumulator_value | .reset => ret 0 end in counter\n",
+        "let u = codata | .run (some_long_parameter_name : SomeLongTypeName) (another_long_parameter_name : AnotherLongTypeName) : F Int end in u\n",
+        "match some_scrutinee_value | +Constructor(first_component_of_the_payload, second_component_of_the_payload, third_component_of_it) => ret first_component_of_the_payload | +Other() => ret 0 end\n",
+        "let some_definition_name : SomeLongTypeName -> AnotherLongTypeName -> YetAnotherLongTypeName -> TheResultTypeName -> Int = bar in some_definition_name\n",
+        "fn (first_parameter_with_a_long_name : SomeLongTypeName) (second_parameter_with_a_long_name : AnotherLongTypeName) => ret first_parameter_with_a_long_name\n",
     ].iter().enumerate() {
         inputs.push((format!("regression:{k}"), text.to_string()));
     }
